@@ -28,13 +28,13 @@ def events_of(h):
     return evs
 
 
-def gen(chk, name, c, sim=None, seed=0):
+def gen(chk, name, c, sim=None, seed=0, spec='GenSpec'):
     cfg = os.path.join(chk.work, f'{name}.cfg')
     if sim:
         tlc.write_cfg(cfg, spec='GenSpec', constants=c, invariants=['SimInv'])
         res = tlc.run('Farm_Gen.tla', cfg, workers=1, simulate=f'num={sim[0]}', depth=sim[1], seed=seed, timeout=900, out_file=os.path.join(chk.work, f'{name}.out'))
     else:
-        tlc.write_cfg(cfg, spec='GenSpec', constants=c, extra=['VIEW View', 'ACTION_CONSTRAINT Emit'])
+        tlc.write_cfg(cfg, spec=spec, constants=c, extra=['VIEW View', 'ACTION_CONSTRAINT Emit'])
         res = tlc.run('Farm_Gen.tla', cfg, workers=1, timeout=1800, out_file=os.path.join(chk.work, f'{name}.out'))
         if not res.ok:
             raise core.Machinery(f'generation {name} failed: {res.error or res.violated}')
@@ -101,11 +101,22 @@ def run(pid, tier, seed, replay=None):
         rnd.shuffle(trans)
         trans = trans[:2500]
     sim = gen(chk, 'sim', consts(4, ['T1', 'T2'], 3, 2), sim=(2000 if thorough else 300, 24), seed=seed)
+    # two targets, requests / dispatch / replies only (workers of the right revision): a unit of one algorithm released at
+    # different passes, run ids carried or drawn -- maximal histories (all in thorough, a sample in quick)
+    lean = gen(chk, 'lean2t', consts(2, ['T1', 'T2'], 2, 0), spec='GenSpecLean')
+    parents = {json.dumps(h[:-1], sort_keys=True) for h in lean}
+    lean = [h for h in lean if json.dumps(h, sort_keys=True) not in parents]
+    chk.counters['lean_two_target_histories'] = len(lean)
+    if not thorough:
+        rnd.shuffle(lean)
+        lean = lean[:2500]
     jobs_a = [{'id': i, 'targets': ['T1'], 'events': events_of(h)} for i, h in enumerate(trans)]
+    jobs_c = [{'id': 10**6 + i, 'targets': ['T1', 'T2'], 'events': events_of(h)} for i, h in enumerate(lean)]
     jobs_b = [{'id': len(jobs_a) + i, 'targets': ['T1', 'T2'], 'events': events_of(h)} for i, h in enumerate(sim)]
     chk.samples = [j['events'] for j in rnd.sample(jobs_a, min(2, len(jobs_a)))] + [j['events'] for j in jobs_b[:1]]
     collect(chk, pid, jobs_a, 2, ['T1'])
     collect(chk, pid, jobs_b, 4, ['T1', 'T2'])
+    collect(chk, pid, jobs_c, 2, ['T1', 'T2'])
     nontriv = set()
     for j in jobs_a + jobs_b:
         kinds = [e['ev'] for e in j['events']]
